@@ -1,7 +1,7 @@
 """C20 -- Zemax import reproduces the prescription written in the file."""
 import ast
 from ..core import Result
-from ..pm import AnalysisError, unparse
+from ..pm import AnalysisError, Missing, unparse
 from ..match import Code
 
 META = {
@@ -60,7 +60,9 @@ def dispatch(ctx):
                 isinstance(k, ast.Constant) for k in n.keys):
             table = n
     if table is None:
-        raise AnalysisError('operand table not found')
+        raise Missing('ZMX-DISPATCH', init, 'operand table',
+                      'ZemaxFileReader.__init__ does not build the table that '
+                      'maps the keywords of the file to their handlers')
     expect = {  # keyword -> (quantity key written, token index / form)
         'CURV': ('radius', '1 / float(data[1])'),
         'DISZ': ('thickness', 'float(data[1])'),
@@ -193,7 +195,9 @@ def keys_and_wiring(ctx):
     call = [c for c in ast.walk(cs.node) if isinstance(c, ast.Call) and
             isinstance(c.func, ast.Attribute) and c.func.attr == 'add_surface']
     if not call:
-        raise AnalysisError('converter does not call add_surface')
+        raise Missing('ZMX-KEYS', cs, 'add_surface call',
+                      'the converter does not add the surfaces it has read to '
+                      'the lens (_configure_surface has no add_surface call)')
     kw = {k.arg: unparse(k.value) for k in call[0].keywords}
     want = {'index': 'index', 'surface_type': "data['type']",
             'radius': "data['radius']", 'conic': "data['conic']",
